@@ -7,6 +7,7 @@ From Coq Require Import List Bool Arith NArith ZArith Lia.
 From Coq.Strings Require Import Byte.
 From TV Require Import Base.Prelude Base.Utf8 Base.Winnow Gen.Consts.
 From TV Require Import Model.Trivia Model.Strings Model.Datetime Model.Numbers Model.Tree Model.Parse Model.Document.
+From TV Require Import Proofs.Eoi.
 Import ListNotations.
 
 Section Range.
@@ -724,12 +725,21 @@ Qed.
 
 Lemma value_offset_in_range s e at_ :
   parse_value_raw s = PErr e (Some at_) -> (at_ <= N.of_nat (length s))%N.
-Proof. apply lift_outcome_range, pres_value. Qed.
+Proof.
+  unfold parse_value_raw. intro H. apply lift_eoi_err in H as (e0 & H & _). revert H.
+  apply lift_outcome_range, pres_value.
+Qed.
 
 Lemma key_offset_in_range s e at_ :
   parse_key s = PErr e (Some at_) -> (at_ <= N.of_nat (length s))%N.
-Proof. apply lift_outcome_range, pres_simple_key. Qed.
+Proof.
+  unfold parse_key. intro H. apply lift_eoi_err in H as (e0 & H & _). revert H.
+  apply lift_outcome_range, pres_simple_key.
+Qed.
 
 Lemma key_path_offset_in_range s e at_ :
   parse_key_path s = PErr e (Some at_) -> (at_ <= N.of_nat (length s))%N.
-Proof. apply lift_outcome_range, pres_key. Qed.
+Proof.
+  unfold parse_key_path. intro H. apply lift_eoi_err in H as (e0 & H & _). revert H.
+  apply lift_outcome_range, pres_key.
+Qed.
